@@ -681,7 +681,10 @@ fn value_id(ctx: &Ctx, bytes: &[u8]) -> Option<u64> {
 }
 
 /// Which complete value is `slice` the [start, end) part of? (contents have distinct tags)
-fn value_of_slice(ctx: &Ctx, slice: &[u8], start: u64, end: u64) -> Option<u64> {
+/// Every value of which `slice` is exactly the [start, end) part. A short slice (e.g. one byte
+/// of a block index) can belong to several contents: the read then identifies a SET of writers.
+fn values_of_slice(ctx: &Ctx, slice: &[u8], start: u64, end: u64) -> Vec<u64> {
+    let mut out = Vec::new();
     for (i, c) in ctx.contents.iter().enumerate() {
         let l = c.len() as u64;
         if start >= l {
@@ -689,10 +692,10 @@ fn value_of_slice(ctx: &Ctx, slice: &[u8], start: u64, end: u64) -> Option<u64> 
         }
         let e = end.min(l);
         if e >= start && &c[start as usize..e as usize] == slice {
-            return Some(i as u64 + 1);
+            out.push(i as u64 + 1);
         }
     }
-    None
+    out
 }
 
 fn run_and_judge(prog: &Program, strategy: Strategy, serial: bool, focus: &str) -> Result<Judged, String> {
@@ -920,9 +923,15 @@ fn run_and_judge(prog: &Program, strategy: Strategy, serial: bool, focus: &str) 
                     if b.is_empty() {
                         evs.push(LEvent::single(r.call, r.ret, Action::ExpectPresent, format!("{d} = empty")));
                     } else {
-                        match value_of_slice(&ctx, b, *start, *end) {
-                            Some(v) => evs.push(LEvent::single(r.call, r.ret, Action::ExpectEq(v), format!("{d} = slice of c{}", v - 1))),
-                            None => findings.push(Finding::new(
+                        match values_of_slice(&ctx, b, *start, *end).as_slice() {
+                            [v] => evs.push(LEvent::single(r.call, r.ret, Action::ExpectEq(*v), format!("{d} = slice of c{}", v - 1))),
+                            vs if !vs.is_empty() => evs.push(LEvent {
+                                call: r.call,
+                                ret: r.ret,
+                                alts: vs.iter().map(|v| vec![Action::ExpectEq(*v)]).collect(),
+                                desc: format!("{d} = slice shared by {:?}", vs.iter().map(|v| format!("c{}", v - 1)).collect::<Vec<_>>()),
+                            }),
+                            _ => findings.push(Finding::new(
                                 &["C05", "C17"],
                                 "get_range returned bytes that are no slice of a committed value",
                                 "read under concurrency",
